@@ -35,9 +35,10 @@ var kinds = map[string]string{
 	"panic":    "z := 0\n1 / z",
 	"overflow": "func r(n) { return r(n + 1) }\nr(0)",
 	"cancel":   "s := 0\nfor i := range 6 { s += i }\ns",
-	"deff":     "k := 10\nfunc f(n) { t := k\n for i := range n { t += i }\n return t }\n7",
+	"deff":     "k := 10\nfunc f(n) { c := func() { return n }\n if n < 0 { [1][5] }\n t := k\n for i := range n { t += i }\n return t + c() * 100 }\n7",
 	"callf":    "", // Call(f, 3) with f taken from the VM after the last deff
 	"callferr": "", // Call(f) with a wrong argument count
+	"callfail": "", // Call(f, -1): f fails with a runtime error after it has created a closure over its parameter
 }
 
 type history []string
@@ -92,13 +93,16 @@ func invoke(m *vm.VirtualMachine, st *state, kind string, ctx context.Context, f
 	var err error
 	spBefore := m.VerifSP()
 	switch kind {
-	case "callf", "callferr":
+	case "callf", "callferr", "callfail":
 		if *fn == nil {
 			return result{Err: "no function", Class: "harness"}
 		}
 		args := []object.Object{object.NewInt(3)}
 		if kind == "callferr" {
 			args = nil
+		}
+		if kind == "callfail" {
+			args = []object.Object{object.NewInt(-1)}
 		}
 		val, err = m.Call(ctx, *fn, args)
 	default:
@@ -121,7 +125,7 @@ func invoke(m *vm.VirtualMachine, st *state, kind string, ctx context.Context, f
 		return result{Err: err.Error(), Class: cls, IsCtx: errors.Is(err, context.Canceled)}
 	}
 	sp := m.VerifSP() + 1 // RunCode: exactly the result on the stack
-	if kind == "callf" || kind == "callferr" {
+	if kind == "callf" || kind == "callferr" || kind == "callfail" {
 		sp = m.VerifSP() - spBefore // Call: leaves the stack as it found it
 	}
 	if val == nil {
@@ -137,7 +141,7 @@ func expected(codes map[string]*compiler.Code, env *rt.Env) map[string]result {
 		m := vm.New(codes["b"], vm.WithGlobals(env.Globals), vm.WithOS(env.OS))
 		st := &state{codes: codes}
 		var fn *object.Function
-		if k == "callf" || k == "callferr" {
+		if k == "callf" || k == "callferr" || k == "callfail" {
 			invoke(m, st, "deff", context.Background(), &fn)
 		}
 		out[k] = invoke(m, st, k, context.Background(), &fn)
@@ -282,7 +286,7 @@ func histories(alpha []string, maxLen int) []history {
 			return
 		}
 		for _, a := range alpha {
-			if (a == "callf" || a == "callferr") && !contains(h, "deff") {
+			if (a == "callf" || a == "callferr" || a == "callfail") && !contains(h, "deff") {
 				continue
 			}
 			rec(append(h, a))
@@ -327,17 +331,17 @@ func Check(r *ev.Run, replay string) {
 		r.Set("traces_validated_against_impl", 1)
 		return
 	}
-	alpha := []string{"a", "err0", "panic", "cancel", "deff", "callf"}
+	alpha := []string{"a", "err0", "panic", "cancel", "deff", "callf", "callfail"}
 	maxLen, bound, limit := 3, 1, 12000
 	if r.Thorough() {
-		alpha = []string{"a", "b", "err0", "err2", "panic", "cancel", "deff", "callf", "callferr", "overflow"}
+		alpha = []string{"a", "b", "err0", "err2", "panic", "cancel", "deff", "callf", "callferr", "callfail", "overflow"}
 		maxLen, bound, limit = 3, 2, 30000
 	}
 	finePoints = r.Thorough()
 	hs := histories(alpha, maxLen)
 	if r.Thorough() {
 		// length 4 over the smaller alphabet, one deviation
-		for _, h := range histories([]string{"a", "err0", "panic", "cancel", "deff", "callf"}, 4) {
+		for _, h := range histories([]string{"a", "err0", "panic", "cancel", "deff", "callf", "callfail"}, 4) {
 			if len(h) == 4 {
 				hs = append(hs, h)
 			}
@@ -423,7 +427,7 @@ func signature(c caseT, v string) string {
 	var k string
 	if _, err := fmt.Sscanf(v, "invocation %d (%s", &idx, &k); err == nil && idx < len(c.H) {
 		k = c.H[idx]
-		if k == "callf" || k == "callferr" {
+		if k == "callf" || k == "callferr" || k == "callfail" {
 			last := -1
 			for i := 0; i < idx; i++ {
 				if c.H[i] == "deff" {
@@ -431,7 +435,7 @@ func signature(c caseT, v string) string {
 				}
 			}
 			for i := last + 1; i < idx; i++ {
-				if c.H[i] != "callf" && c.H[i] != "callferr" {
+				if c.H[i] != "callf" && c.H[i] != "callferr" && c.H[i] != "callfail" {
 					return "C07:" + kind + ":call-of-function-whose-code-was-replaced-by-a-later-RunCode"
 				}
 			}
